@@ -645,6 +645,7 @@ def run(c):
         stream_resize(c, c.n(100, 3000), tmp)
         M.stream_rewrite(c, c.n(40, 1200), tmp, gen_store)
         M.stream_csv(c, c.n(80, 3000), tmp)
+        M.stream_csv_handwritten(c, c.n(80, 3000), tmp)
         M.stream_netcdf(c, c.n(40, 1000), tmp)
         M.stream_param(c, c.n(80, 3000), tmp)
         M.stream_ids(c, c.n(80, 3000), tmp)
